@@ -81,4 +81,34 @@ PROPS["C16"] = {
     "assumptions": ["redcon never dispatches an empty command (cmd.Args[0] exists)", "strconv/hex functions return an error on bad input and never panic"],
 }
 
+DMAP_MODELLED = "internal/dmap/{put,get,delete,expire}.go and their handlers over abstract fragments (DMap/Model.lean); routing and time are inputs read from the running cluster"
+
+PROPS["C04"] = {
+    "lean": ["OlricModel.Props.C04"],
+    "streams": [("cluster", (12, 150), (150, 400))],
+    "model": True,
+    "level_text": "Invariant theorem (C04_mirror): for every sequence of Put (any options) / Expire / Delete / Get on a key, of any length, from any state where the copies agree, every backup copy equals the primary copy (value, expiry, timestamp; absent iff absent) after each operation; acknowledged writes leave exactly the written entry everywhere; operations on other keys/DMaps touch nothing (frame). Tied to the code by the cluster stream, which reads every member's primary and backup copy after each mutation through all client paths and compares them with the model and with each other.",
+    "design_ref": "DESIGN.md §6 C04",
+    "modelled": DMAP_MODELLED,
+    "assumptions": ["stable membership, every backup owner reachable (C05 covers unreachable ones)", "atomic ops, locks and eviction are compositions of these steps; their mirror property is exercised by the atomic/lock streams, not proved separately"],
+}
+PROPS["C05"] = {
+    "lean": ["OlricModel.Props.C05"],
+    "streams": [("quorum", (25, 0), (400, 0)), ("cluster", (6, 150), (60, 400))],
+    "model": True,
+    "level_text": "Theorems for all configurations and all subsets of unreachable backup owners: a Put is acknowledged iff stored copies >= WriteQuorum and fails with exactly the write-quorum error otherwise (C05_write_iff), the counted copies are really stored; a Get returns a value only with >= ReadQuorum copies obtained, read-quorum error when too few members answer or too few hold the key, not-found when no answering member holds it (C05_read); below MemberCountQuorum the guarded handler does not run (C05_member_quorum) — with the guard's shape extracted from server/handler.go, olric.go and dmap.go on every run. Tied to the code by the quorum stream (listeners really closed, member count really faked).",
+    "design_ref": "DESIGN.md §6 C05",
+    "modelled": DMAP_MODELLED + "; server.Handler.ServeRESP as `guarded`",
+    "assumptions": ["an unreachable member = its RESP listener and connections closed while memberlist still lists it"],
+}
+PROPS["C09"] = {
+    "lean": ["OlricModel.Props.C09"],
+    "streams": [("cluster", (14, 150), (150, 400))],
+    "model": True,
+    "level_text": "Theorems with `now` an arbitrary input: once every copy is absent-or-expired (eviction run or not) Get is not-found, NX is accepted, XX and Expire are not-found and change nothing (C09_invisible_after); before the deadline with agreeing copies Get returns the value (C09_visible_before); the deadline arithmetic of every option form and of Expire (C09_ttl_rules, C09_expire_keeps_value), boundary at the exact millisecond. Tied to the code with a virtual clock (time.Now rewritten in the harness build) so that deadlines are hit exactly.",
+    "design_ref": "DESIGN.md §6 C09",
+    "modelled": DMAP_MODELLED,
+    "assumptions": ["EX/EXAT travel as decimal float seconds on forwarded paths; the stream uses whole seconds for them (sub-second float rounding is outside the model)", "idle eviction (MaxIdleDuration) is C10"],
+}
+
 NOT_CLAIMED = {}
